@@ -110,6 +110,30 @@ void match_case(i64 v_, i64 fa_, i64 fb_, i64 fc_)
     }
   });
 }
+// match over alternatives that CONVERT into each other (int, long, double, bool): the function of the
+// held alternative is the one at the same position, not the first one that could be called with the
+// value
+void match_convertible_case(i64 which_, i64 val_)
+{
+  int const which = static_cast<int>(mod(which_, 4)), val = static_cast<int>(mod(val_, 3));
+  count(which >= 1);
+  using CV = fcppt::variant::object<int, long, double, bool>;
+  CV const src = which == 0 ? CV{val} : which == 1 ? CV{static_cast<long>(val)} : which == 2 ? CV{static_cast<double>(val)} : CV{val != 0};
+  int called[4] = {0, 0, 0, 0};
+  int const r = fcppt::variant::match(
+      src, [&called](int) { ++called[0]; return 0; }, [&called](long) { ++called[1]; return 1; }, [&called](double) { ++called[2]; return 2; }, [&called](bool) { ++called[3]; return 3; });
+  bool ok = r == which;
+  for (int i = 0; i < 4; ++i) ok = ok && called[i] == (i == which ? 1 : 0);
+  chk(ok, "variant::match|convertible-alternatives|wrong-function", [&] {
+    return std::string("match on variant<int,long,double,bool> holding alternative #") + std::to_string(which) + " called the functions " + std::to_string(called[0]) + "," + std::to_string(called[1]) + "," + std::to_string(called[2]) + "," + std::to_string(called[3]) + " times and returned " + std::to_string(r);
+  });
+}
+Reg const r_match_conv{
+    C04_SEC("variant_match_convertible_alternatives"), Kind::exhaustive, "the held alternative is not the first one",
+    [] { for (i64 w = 0; w < 4; ++w) for (i64 v = 0; v < 3; ++v) { cur2(w, v); match_convertible_case(w, v); } },
+    [](Ints const &c) { match_convertible_case(c.at(0), c.at(1)); },
+    [](Ints const &c) { return "match on variant<int,long,double,bool> holding alternative #" + std::to_string(mod(c.at(0), 4)) + " with value " + std::to_string(mod(c.at(1), 3)); }};
+
 Reg const r_match{
     C04_SEC("variant_match_apply"), Kind::exhaustive, "variant::match / unary variant::apply: the continuation table of the held alternative is not constant",
     [] {
